@@ -102,7 +102,7 @@ for cid, vals in cases:
     fuel = len(atoms) + 3
     parts = []
     for rq in requests:
-        subj, px, ot, rel, runs, streams = rq
+        subj, px, ot, rel, runs, streams = rq[:6]
         ss = []
         for st in streams:
             if st[2] != 0: continue
